@@ -4,6 +4,7 @@ import (
 	"fmt"
 	"go/constant"
 	"go/token"
+	"sort"
 	"strings"
 
 	"golang.org/x/tools/go/ssa"
@@ -17,7 +18,9 @@ func init() {
 		Explanation: "Only necessary conditions are decided (the liveness claim itself is dynamic): " +
 			"C14.1 constant compatibility: default permission refresh interval + worst-case transaction time (sum of the retransmission schedule RTO·2^k capped at 1.6 s over 7 transmissions) < the server's default permission timeout; default binding refresh + binding check interval + worst-case transaction time < the server's default channel timeout; the allocation refresh period is lifetime/k with k ≥ 2; " +
 			"C14.2 NewUDPConn creates and starts the allocation-refresh, permission-refresh and binding-check timers on every path (NewTCPAllocation the first two), and their handlers reach refreshAllocation / refreshPermissions / maybeBind; " +
-			"C14.3 stale-nonce recovery: every site that compares a response's error code with 438 stores the response's nonce and returns the retry sentinel, and every caller of such a function retries on that sentinel inside a bounded loop; " +
+			"C14.3 stale-nonce recovery: every site that compares a response's error code with 438 stores the response's nonce and returns the retry sentinel, and every call site (including the call of a function parameter inside a retry combinator) that can receive the sentinel retries on it inside a bounded loop or hands it on; " +
+			"C14.7 a retry carries the new nonce: every function run as one attempt of such a loop reads the allocation's nonce on every path to its PerformTransaction (helpers inlined), so a request built once outside the loop is reported; " +
+			"C14.6 the fire-and-forget Refresh(0) of Close leaves the transaction table only through its armed timer (shared rule C12.1); " +
 			"C14.5 a duplicated or late response (no pending transaction) does not end the client's read loop: handleSTUNMessage returns nil for it; " +
 			"C14.4 the first-close path of UDPConn.Close and TCPAllocation.Close calls refreshAllocation with the constant lifetime 0, and refreshAllocation reaches PerformTransaction on every path that returns nil.",
 		NotCovered: "liveness over hours and under loss schedules, server configurations other than the defaults, nonce expiry timing — the bulk of this property is not applicable to static analysis.",
@@ -166,11 +169,13 @@ func runC14(c *Ctx) {
 			for _, f := range w.factsAt(in) {
 				if f.Op == "==" && f.Truth && w.sameKey(f.X, on.Params[1]) {
 					k, _ := constInt(f.Y)
-					if call.Call.StaticCallee() == ra && k == idAlloc {
-						okA = true
-					}
-					if call.Call.StaticCallee() == rp && k == idPerms {
-						okP = true
+					for _, cal := range w.calledFns(call) {
+						if cal == ra && k == idAlloc {
+							okA = true
+						}
+						if cal == rp && k == idPerms {
+							okP = true
+						}
 					}
 				}
 			}
@@ -194,7 +199,7 @@ func runC14(c *Ctx) {
 	}
 
 	// ---- C14.3
-	c.Rule("C14.3", "stale nonce: every comparison of an ErrorCodeAttribute's Code with the constant 438 (if- or switch-form) has, on its equal edge, a call of setNonceFromMsg(the response) followed by a return of the retry sentinel errTryAgain; every module caller of a function that can return that sentinel tests errors.Is(err, errTryAgain) inside a loop bounded by a positive constant", 3)
+	c.Rule("C14.3", "stale nonce: every comparison of an ErrorCodeAttribute's Code with the constant 438 (if- or switch-form) has, on its equal edge, a call of setNonceFromMsg(the response) followed by a return of the retry sentinel errTryAgain; every module caller of a function that can return that sentinel tests errors.Is(err, errTryAgain) inside a loop bounded by a positive constant", 5)
 	{
 		stale := stunConst(w, "CodeStaleNonce")
 		setN := w.Func("client", "allocation", "setNonceFromMsg")
@@ -271,6 +276,137 @@ func runC14(c *Ctx) {
 			}
 			return false
 		}
+		// the functions a call site may run: its static callee, or — for the call of a function
+		// parameter inside a synchronous combinator (retry(fn)) — the function values handed in
+		paramTargets := map[*ssa.Parameter][]*ssa.Function{}
+		for _, fn := range w.ModFns {
+			w.eachInstr(fn, func(in ssa.Instruction) {
+				call, ok := in.(*ssa.Call)
+				if !ok {
+					return
+				}
+				h := call.Call.StaticCallee()
+				if h == nil || !w.IsMod[h] {
+					return
+				}
+				for i, a := range call.Call.Args {
+					var body *ssa.Function
+					switch x := a.(type) {
+					case *ssa.MakeClosure:
+						body = w.closureBody(x)
+					case *ssa.Function:
+						body = x
+					}
+					if body != nil && w.invokesParam(h, i) {
+						paramTargets[h.Params[i]] = append(paramTargets[h.Params[i]], body)
+					}
+				}
+			})
+		}
+		calleesOf := func(cs ssa.CallInstruction) []*ssa.Function {
+			if cal := cs.Common().StaticCallee(); cal != nil {
+				return []*ssa.Function{cal}
+			}
+			if p, ok := cs.Common().Value.(*ssa.Parameter); ok && !cs.Common().IsInvoke() {
+				return paramTargets[p]
+			}
+			return nil
+		}
+		// retried(call): the result of this call is tested against the sentinel and, on the
+		// sentinel edge, the call (or another call of the same function) is made again
+		retried := func(call *ssa.Call) bool {
+			caller := call.Parent()
+			okLoop := false
+			w.eachInstr(caller, func(in ssa.Instruction) {
+				// errors.Is(err, errTryAgain) or err == errTryAgain
+				var tested ssa.Value
+				switch x := in.(type) {
+				case *ssa.Call:
+					if x.Call.StaticCallee() != nil && x.Call.StaticCallee().String() == "errors.Is" {
+						if g := globalLoad(x.Call.Args[1]); g != nil && nm(g) == "errTryAgain" {
+							tested = x.Call.Args[0]
+						}
+					}
+				case *ssa.BinOp:
+					if x.Op == token.EQL || x.Op == token.NEQ {
+						if g := globalLoad(x.Y); g != nil && nm(g) == "errTryAgain" {
+							tested = x.X
+						} else if g := globalLoad(x.X); g != nil && nm(g) == "errTryAgain" {
+							tested = x.Y
+						}
+					}
+				}
+				if tested == nil {
+					return
+				}
+				if !w.dependsOn(tested, func(v ssa.Value) bool {
+					if v == ssa.Value(call) {
+						return true
+					}
+					ex, ok := v.(*ssa.Extract)
+					return ok && ex.Tuple == ssa.Value(call)
+				}, caller) {
+					return
+				}
+				if blockReaches(call.Block(), call.Block()) {
+					okLoop = true
+					return
+				}
+				// the retry may be a second call site (first attempt before the loop,
+				// further attempts inside it): from the edge on which the result is the
+				// sentinel another call of the same function is reachable
+				tv, _ := in.(ssa.Value)
+				for _, b := range caller.Blocks {
+					iff, isIf := b.Instrs[len(b.Instrs)-1].(*ssa.If)
+					if !isIf || len(b.Succs) != 2 || b.Succs[0] == b.Succs[1] {
+						continue
+					}
+					for i, succ := range b.Succs {
+						isSentinelEdge := false
+						for _, f := range normCond(iff.Cond, i == 0) {
+							switch {
+							case f.Op == "true" && f.Truth && f.X == tv:
+								isSentinelEdge = true
+							case f.Op == "==" && f.Truth:
+								if bo, isBO := tv.(*ssa.BinOp); isBO && ((f.X == bo.X && f.Y == bo.Y) || (f.X == bo.Y && f.Y == bo.X)) {
+									isSentinelEdge = true
+								}
+							}
+						}
+						if !isSentinelEdge {
+							continue
+						}
+						for _, b2 := range caller.Blocks {
+							for _, i2 := range b2.Instrs {
+								cs2, isCall := i2.(*ssa.Call)
+								if !isCall || !(b2 == succ || blockReaches(succ, b2)) {
+									continue
+								}
+								for _, t1 := range calleesOf(call) {
+									for _, t2 := range calleesOf(cs2) {
+										if t1 == t2 {
+											okLoop = true
+										}
+									}
+								}
+							}
+						}
+					}
+				}
+			})
+			return okLoop
+		}
+		isSentinelSite := func(cs ssa.CallInstruction) bool {
+			if dontWaitSite(cs) {
+				return false
+			}
+			for _, t := range calleesOf(cs) {
+				if sentinelFns[t] {
+					return true
+				}
+			}
+			return false
+		}
 		for changed := true; changed; {
 			changed = false
 			for _, fn := range w.ModFns {
@@ -294,7 +430,12 @@ func runC14(c *Ctx) {
 					if !ok || sentinelFns[fn] {
 						return
 					}
-					if cal := cs.Common().StaticCallee(); cal != nil && sentinelFns[cal] && forwards(cs) && !dontWaitSite(cs) {
+					if isSentinelSite(cs) && forwards(cs) {
+						// a site that retries absorbs the sentinel: what it hands on after the last
+						// attempt is a failure, not a request to try again
+						if call, isCall := cs.(*ssa.Call); isCall && retried(call) {
+							return
+						}
 						sentinelFns[fn] = true
 						changed = true
 					}
@@ -302,100 +443,119 @@ func runC14(c *Ctx) {
 			}
 		}
 		// call sites that consume the sentinel must retry
-		for _, sf := range sortedFns(sentinelFns) {
-			for _, cs := range w.callsTo(sf) {
-				caller := cs.Parent()
-				if caller.Synthetic != "" {
-					continue // promoted-method wrapper
+		type attempt struct {
+			site *ssa.Call
+			fn   *ssa.Function
+		}
+		var attempts []attempt
+		for _, caller := range w.ModFns {
+			if caller.Synthetic != "" {
+				continue // promoted-method / bound-method wrapper
+			}
+			w.eachInstr(caller, func(in ssa.Instruction) {
+				cs, ok := in.(ssa.CallInstruction)
+				if !ok {
+					return
 				}
-				if forwards(cs) {
-					continue // hands the sentinel on to its own caller
-				}
-				call, _ := cs.(*ssa.Call)
-				// a Refresh sent with dontWait=true does not process a response: no 438 can come back
-				if nm(sf) == "refreshAllocation" && len(cs.Common().Args) == 3 {
-					if k, isK := cs.Common().Args[2].(*ssa.Const); isK && k.Value != nil && constant.BoolVal(k.Value) {
-						c.Triv("C14.3", fname(caller), "retry "+sf.Name(), w.instrPos(cs), "dontWait=true: the response is not awaited, nothing to retry")
-						continue
+				var sfs []*ssa.Function
+				for _, t := range calleesOf(cs) {
+					if sentinelFns[t] {
+						sfs = append(sfs, t)
 					}
 				}
-				c.Anchor("C14.3", "caller "+fname(caller))
-				okLoop := false
-				if call != nil {
-					w.eachInstr(caller, func(in ssa.Instruction) {
-						// errors.Is(err, errTryAgain) or err == errTryAgain
-						var tested ssa.Value
-						switch x := in.(type) {
-						case *ssa.Call:
-							if x.Call.StaticCallee() != nil && x.Call.StaticCallee().String() == "errors.Is" {
-								if g := globalLoad(x.Call.Args[1]); g != nil && nm(g) == "errTryAgain" {
-									tested = x.Call.Args[0]
-								}
-							}
-						case *ssa.BinOp:
-							if x.Op == token.EQL || x.Op == token.NEQ {
-								if g := globalLoad(x.Y); g != nil && nm(g) == "errTryAgain" {
-									tested = x.X
-								} else if g := globalLoad(x.X); g != nil && nm(g) == "errTryAgain" {
-									tested = x.Y
-								}
-							}
-						}
-						if tested == nil {
-							return
-						}
-						ic := struct{ Call struct{ Args []ssa.Value } }{}
-						ic.Call.Args = []ssa.Value{tested}
-						if !w.dependsOn(ic.Call.Args[0], func(v ssa.Value) bool {
-							if v == ssa.Value(call) {
-								return true
-							}
-							ex, ok := v.(*ssa.Extract)
-							return ok && ex.Tuple == ssa.Value(call)
-						}, caller) {
-							return
-						}
-						if blockReaches(call.Block(), call.Block()) {
-							okLoop = true
-							return
-						}
-						// the retry may be a second call site (first attempt before the loop,
-						// further attempts inside it): from the edge on which the result is the
-						// sentinel another call of the same function is reachable
-						tv, _ := in.(ssa.Value)
-						for _, b := range caller.Blocks {
-							iff, isIf := b.Instrs[len(b.Instrs)-1].(*ssa.If)
-							if !isIf || len(b.Succs) != 2 || b.Succs[0] == b.Succs[1] {
-								continue
-							}
-							for i, succ := range b.Succs {
-								isSentinelEdge := false
-								for _, f := range normCond(iff.Cond, i == 0) {
-									switch {
-									case f.Op == "true" && f.Truth && f.X == tv:
-										isSentinelEdge = true
-									case f.Op == "==" && f.Truth:
-										if bo, isBO := tv.(*ssa.BinOp); isBO && ((f.X == bo.X && f.Y == bo.Y) || (f.X == bo.Y && f.Y == bo.X)) {
-											isSentinelEdge = true
-										}
-									}
-								}
-								if !isSentinelEdge {
-									continue
-								}
-								for _, cs2 := range w.callsTo(sf) {
-									if cs2.Parent() == caller && (cs2.Block() == succ || blockReaches(succ, cs2.Block())) {
-										okLoop = true
-									}
-								}
-							}
-						}
-					})
+				if len(sfs) == 0 {
+					return
 				}
-				if okLoop {
-					c.OK("C14.3", fname(caller), "retry "+sf.Name(), w.instrPos(cs), "retries while errors.Is(err, errTryAgain), in a loop")
-				} else {
-					c.Bad("C14.3", fname(caller), "retry "+sf.Name(), w.instrPos(cs), "a caller of "+sf.Name()+" neither forwards nor retries on the stale-nonce sentinel: after the server's nonce expires (one hour) this refresh fails for good")
+				call, _ := cs.(*ssa.Call)
+				names := fnNames(sfs)
+				// a Refresh sent with dontWait=true does not process a response: no 438 can come back
+				if dontWaitSite(cs) {
+					c.Triv("C14.3", fname(caller), "retry "+names, w.instrPos(cs), "dontWait=true: the response is not awaited, nothing to retry")
+					return
+				}
+				if call != nil && retried(call) {
+					c.Anchor("C14.3", "caller "+fname(caller))
+					c.OK("C14.3", fname(caller), "retry "+names, w.instrPos(cs), "retries while errors.Is(err, errTryAgain), in a loop")
+					for _, t := range sfs {
+						attempts = append(attempts, attempt{call, t})
+					}
+					return
+				}
+				if forwards(cs) {
+					return // hands the sentinel on to its own caller
+				}
+				c.Anchor("C14.3", "caller "+fname(caller))
+				c.Bad("C14.3", fname(caller), "retry "+names, w.instrPos(cs), "a caller of "+names+" neither forwards nor retries on the stale-nonce sentinel: after the server's nonce expires (one hour) this refresh fails for good")
+			})
+		}
+
+		// ---- C14.7
+		c.Rule("C14.7", "a retry carries the new nonce: in every function run as one attempt of a stale-nonce retry loop (the callee of the retried call, or the function value handed to the retry combinator), every path (helpers inlined) to a PerformTransaction call reads the allocation's current nonce (allocation.nonce() / the _nonce field) within that attempt: a request built once outside the loop would be re-sent with the nonce the server has just rejected", 3)
+		{
+			nonceFn := w.Func("client", "allocation", "nonce")
+			isNonceRead := func(in ssa.Instruction) bool {
+				if staticCallee(in) == nonceFn {
+					return true
+				}
+				if u, ok := in.(*ssa.UnOp); ok && u.Op == token.MUL {
+					if fa, ok := u.X.(*ssa.FieldAddr); ok && nm(fieldOf(fa)) == "_nonce" {
+						return true
+					}
+				}
+				return false
+			}
+			isPerform := func(in ssa.Instruction) bool {
+				ci, ok := in.(ssa.CallInstruction)
+				if !ok {
+					return false
+				}
+				if ci.Common().IsInvoke() {
+					return ci.Common().Method.Name() == "PerformTransaction"
+				}
+				cal := ci.Common().StaticCallee()
+				return cal != nil && cal.Name() == "PerformTransaction" && fnPkgPath(cal) == modPath
+			}
+			may := w.mayContain(func(in ssa.Instruction) bool { return isNonceRead(in) || isPerform(in) })
+			clientPkg := w.tpkg("client").Path()
+			done := map[*ssa.Function]bool{}
+			for _, at := range attempts {
+				if done[at.fn] {
+					continue
+				}
+				done[at.fn] = true
+				c.Anchor("C14.7", "attempt "+fname(at.fn))
+				bad := ""
+				nPerform := 0
+				cfg := &ipCfg[bool]{w: w}
+				cfg.Inline = func(_ ssa.CallInstruction, h *ssa.Function) bool {
+					return w.IsMod[h] && fnPkgPath(h) == clientPkg && may(h)
+				}
+				cfg.Return = func(*ssa.Return, bool, *pathEnv) {}
+				cfg.Step = func(in ssa.Instruction, read bool, env *pathEnv, _ []ssa.CallInstruction) bool {
+					if _, isGo := in.(*ssa.Go); isGo {
+						return read
+					}
+					if isNonceRead(in) {
+						return true
+					}
+					if isPerform(in) {
+						nPerform++
+						if !read {
+							bad = "the request sent at " + w.instrPos(in) + " can be one that was built before this attempt began: no read of the allocation's nonce on the path from the start of the attempt (" + fname(at.fn) + ") to the send, so the retry after a 438 repeats the rejected nonce"
+						}
+					}
+					return read
+				}
+				explorePaths(cfg, at.fn, false)
+				switch {
+				case cfg.Exhausted:
+					c.Bad("C14.7", fname(at.fn), "attempt", w.pos(at.fn.Pos()), "undecided: path exploration exceeded its budget")
+				case bad != "":
+					c.Bad("C14.7", fname(at.fn), "attempt", w.pos(at.fn.Pos()), bad)
+				case nPerform == 0:
+					c.Bad("C14.7", fname(at.fn), "attempt", w.pos(at.fn.Pos()), "the retried function reaches no PerformTransaction: anchor gone")
+				default:
+					c.OK("C14.7", fname(at.fn), "attempt", w.pos(at.fn.Pos()), fmt.Sprintf("the nonce is read anew before the send on each of the %d explored sends", nPerform))
 				}
 			}
 		}
@@ -508,6 +668,15 @@ func runC14(c *Ctx) {
 			c.Bad("C14.4", fname(ra), "sends", w.pos(ra.Pos()), bad)
 		}
 	}
+}
+
+func fnNames(fs []*ssa.Function) string {
+	var ns []string
+	for _, f := range fs {
+		ns = append(ns, f.Name())
+	}
+	sort.Strings(ns)
+	return strings.Join(ns, "/")
 }
 
 // dontWaitSite: a refreshAllocation(…, true) call: the response is not awaited.
